@@ -97,6 +97,11 @@ def cases(tier):
                 cs.append(with_steps(F.line3(c1, c2, end=8), st))
                 cs.append(with_steps(F.join3(c1, c2, end=8), st))
                 cs.append(with_steps(F.fan3(c1, c2, end=8), st))
+    for trunk in ([F.TOK["S"]], [F.TOK["S"], F.TOK["S"]]):
+        for c1 in F.chains(["L", "F1", "S"], 1):
+            for c2 in F.chains(["L", "F1"], 1):
+                for st in steplists3[:3]:
+                    cs.append(with_steps(F.fan3trunk(trunk, c1, c2, end=8), st))
     for c1 in F.chains(["L", "F1", "S", "P1"], 1):
         for c2 in F.chains(["F1", "S", "P1"], 1, src_pull_based=True):
             for st in steplists2[:4]:
@@ -104,6 +109,7 @@ def cases(tier):
                 cs.append(with_steps(F.viaP2(c1, c2, [], end=8), st))
                 cs.append(with_steps(F.viaP2(c1, [], c2, end=8), st))
                 cs.append(with_steps(F.viaPdup(c1, [], c2, end=8), st))
+                cs.append(with_steps(F.viaPdup(c1, c2, [], end=8), st))
         for st in steplists3[:3]:
             cs.append(with_steps(F.diamondP(end=8, ch=c1), st))
             cs.append(with_steps(F.shareP(end=8), st))
